@@ -200,15 +200,26 @@ func TestC01RoundTrip(t *testing.T) {
 		ss := gen.CoherentSchema(t, opts)
 		ts := &ss.Types[rapid.IntRange(0, len(ss.Types)-1).Draw(t, "type")]
 
-		var res jsonapi.Resource
-		if rapid.Bool().Draw(t, "viaNew") {
+		var (
+			res  jsonapi.Resource
+			vals map[string]any
+		)
+
+		switch {
+		case !ts.Struct && len(ts.Fields()) > 0 && rapid.IntRange(0, 4).Draw(t, "lateField") == 0:
+			// a soft resource one of whose fields was added to its type after
+			// the values were set (it reads as zero)
+			res, vals = gen.SoftWithLateField(t, ts, "v")
+		case rapid.Bool().Draw(t, "viaNew"):
 			typ := ss.Schema.GetType(ts.Name)
 			res = typ.New()
-		} else {
+		default:
 			res = gen.NewResource(ts)
 		}
 
-		vals := gen.FillResource(t, res, ts, "v")
+		if vals == nil {
+			vals = gen.FillResource(t, res, ts, "v")
+		}
 
 		// A to-many relationship may list an ID twice; C01 compares sets.
 		for _, rel := range ts.Rels {
